@@ -63,12 +63,12 @@ offered; everything once `ks` is exhausted). Returns the pieces handed to the tr
 def writeLoop : Nat → Bytes → List Nat → List Bytes
   | 0, _, _ => []
   | fuel + 1, bs, ks =>
-    if bs.length = 0 then []
-    else
-      let k := match ks with
-        | [] => bs.length
-        | k :: _ => if k = 0 then 1 else min k bs.length
-      bs.take k :: writeLoop fuel (bs.drop k) ks.tail
+    if bs.isEmpty then []
+    else match ks with
+      | [] => [bs]
+      | k :: ks' =>
+        let k' := if k = 0 then 1 else k        -- `take` stops at the end: min k' |bs| bytes go out
+        bs.take k' :: writeLoop fuel (bs.drop k') ks'
 
 /-- `writeTo` on such a connection: the pieces put on the wire -/
 def writeFrameTo (limit : Nat) (p : Bytes) (ks : List Nat) : Option (List Bytes) :=
